@@ -127,6 +127,40 @@ Theorem C05_no_prefix_loses_rows :
      find_et (td_name t) (d_tables d) = Some told -> somewhere conv t m told d').
 Proof. exact (C05_no_prefix_loses_rows_lemma conv genv). Qed.
 
+(** 8. `atlas schema apply` end to end (cmdapi.applyChanges over sqlx.ApplyChanges, and
+    sqlite.OpenTx for --tx-mode file), for a connection opened with or without _fk=1: no premise
+    about the pragma is left -- --tx-mode none runs outside a transaction, OpenTx switches
+    enforcement off before BEGIN.  In file mode the connection settings are restored and a
+    refused plan leaves every table as it was; in both modes tables outside the change set are
+    identical, a modified table satisfies [kept_rows] (the characterisation of 1b, see 8') when the
+    plan went through, and its rows are [somewhere] whatever happened. *)
+Theorem C05_schema_apply :
+  forall mode d cs d' r,
+  d_intx d = false -> wf_changes cs -> NoDup (names d) ->
+  schema_apply conv genv mode d cs = Some (d', r) ->
+  (mode = TxFile -> d_fk d' = d_fk d /\ d_intx d' = false) /\
+  (mode = TxFile -> r <> None -> d_tables d' = d_tables d) /\
+  (forall n, ~ In n (flat_map touched cs) -> find_et n (d_tables d') = find_et n (d_tables d)) /\
+  (forall t m told, In (ModifyTable t m) cs -> NoDup (map rc_name (td_cols t)) ->
+     find_et (td_name t) (d_tables d) = Some told ->
+     (r = None -> exists tnew, find_et (td_name t) (d_tables d') = Some tnew /\ kept_rows conv t m told tnew) /\
+     somewhere conv t m told d').
+Proof. exact (C05_schema_apply_lemma conv genv). Qed.
+
+(** 8'. what [kept_rows] says about counts and values (the body of 1b) *)
+Theorem C05_kept_rows_values :
+  forall t m told tnew,
+  kept_rows conv t m told tnew ->
+  alterable m = true \/ pairs m (td_cols t) <> [] ->
+  length (et_rows tnew) = length (et_rows told) /\
+  forall i r r', nth_error (et_rows told) i = Some r -> nth_error (et_rows tnew) i = Some r' ->
+    forall c cold v, In c (td_cols t) -> rc_gen c = false -> kept m c <> None ->
+      ~ In (rc_name c) (renamed_cols m) ->
+      find_rcol (rc_name c) (et_cols told) = Some cold -> rc_type cold = rc_type c ->
+      get r (rc_name c) = Some v ->
+      get r' (rc_name c) = Some (if ifnull_wrapped m c && is_null v then rc_defval c else v).
+Proof. exact (kept_rows_values conv conv_same). Qed.
+
 End C05.
 
 (** 2'. The engine-side premise of 2 is necessary: inside a transaction that was opened with
@@ -184,6 +218,8 @@ Proof. exact RowsBridge.copy_cols_bridge_nil. Qed.
 Print Assumptions C05_rows_preserved_refuted.
 Print Assumptions C05_shared_planner_same_pairing.
 Print Assumptions C05_no_prefix_loses_rows.
+Print Assumptions C05_schema_apply.
+Print Assumptions C05_kept_rows_values.
 Print Assumptions C05_values_identical_refuted.
 Print Assumptions C05_rows_preserved_except.
 Print Assumptions C05_others_untouched.
@@ -256,7 +292,7 @@ Definition w5_cs : list schange :=
 Example C05_no_prefix_loses_rows_nonvacuous :
   exists p d' told,
     wf_changes w5_cs /\ pragma_effective w2_db /\ NoDup (names w2_db) /\
-    PlanChanges w5_cs = POk p /\ run conv0 genv0 w2_db p = (d', Some ENotNull) /\
+    PlanChanges w5_cs = POk p /\ RowsModel.run conv0 genv0 w2_db p = (d', Some ENotNull) /\
     exec_all conv0 genv0 w2_db (firstn 2 p) = EOk d' /\
     find_et sT (d_tables d') = Some told /\ find_et sT (d_tables w2_db) = Some told /\
     length (et_rows told) = 2 /\
@@ -274,4 +310,18 @@ Proof.
   split; [vm_compute; reflexivity|]. split; [reflexivity|].
   eexists. eexists. eexists. split; [vm_compute; reflexivity|]. split; [vm_compute; reflexivity|].
   split; [vm_compute; reflexivity|]. split; [vm_compute; reflexivity|]. reflexivity.
+Qed.
+
+(** 8: the cascade scenario of 2' through `schema apply --tx-mode file` with _fk=1: OpenTx makes the
+    bracket unnecessary, the child keeps its rows and the connection has foreign_keys on again *)
+Example C05_schema_apply_nonvacuous :
+  exists d', schema_apply conv0 genv0 TxFile (w3_db true false) w3_cs = Some (d', None) /\
+    d_fk d' = true /\ d_intx d' = false /\ find_et sC (d_tables d') = Some w3_c /\
+    NoDup (names (w3_db true false)) /\
+    (* and a refused plan in file mode: nothing changes *)
+    schema_apply conv0 genv0 TxFile w2_db w5_cs = Some (w2_db, Some ENotNull).
+Proof.
+  eexists. split; [vm_compute; reflexivity|]. split; [reflexivity|]. split; [reflexivity|].
+  split; [vm_compute; reflexivity|].
+  split; [vm_compute; repeat constructor; simpl; intuition discriminate|]. vm_compute. reflexivity.
 Qed.
